@@ -80,6 +80,7 @@ def _strategy():
 
 
 KNOWN_CLASSES = {
+    "cyclic_or_complement": lambda case, failure: gp.cyclic_body_disjunction_with_complement(case["prog"]),
     "pos_and_neg_recursion_same_scc": lambda case, failure: gp.pos_and_neg_recursion_same_scc(case["prog"]),
     "negcycle_fp": lambda case, failure: gp.neg_on_cyclic_goal_under_active_cycle(case["prog"]),
     "neg_under_cycle": lambda case, failure: gp.neg_under_active_cycle(case["prog"]),
